@@ -348,6 +348,7 @@ Definition disjoint_masks (l : list (garr bool)) : Prop :=
 (* the segmented and the monolithic description of one aperture: segment masks pairwise disjoint
    (bounding boxes may overlap), the global mask their union, same amplitude and OPD *)
 Definition partition_of (Pseg Pmono : plane) (n m : Z) : Prop :=
+  pl_pix Pseg = pl_pix Pmono /\ pl_focal Pseg = pl_focal Pmono /\
   pl_amp Pseg = pl_amp Pmono /\ pl_opd Pseg = pl_opd Pmono /\
   plane_ok Pseg n m /\ plane_ok Pmono n m /\
   disjoint_masks (masks_of (pl_mask Pseg)) /\
@@ -362,10 +363,11 @@ Inductive regular_chain : list (plane) -> pwf -> pwf -> Prop :=
     regular_chain (P :: ps) w w''.
 
 Definition same_optics (P1 P2 : plane) : Prop :=
+  pl_pix P1 = pl_pix P2 /\ pl_focal P1 = pl_focal P2 /\
   exists n m, plane_ok P1 n m /\ plane_ok P2 n m /\
     forall lam r c, transmission P1 lam n m r c = transmission P2 lam n m r c.
 Definition wf_equiv (w1 w2 : pwf) : Prop :=
-  pw_lam w1 = pw_lam w2 /\ pw_shape w1 = pw_shape w2 /\
+  pw_lam w1 = pw_lam w2 /\ pw_shape w1 = pw_shape w2 /\ pw_pix w1 = pw_pix w2 /\ pw_focal w1 = pw_focal w2 /\
   (forall f, In f (pw_data w1) -> fwell f) /\ (forall f, In f (pw_data w2) -> fwell f) /\
   forall r c, ec_sum (pw_data w1) r c = ec_sum (pw_data w2) r c.
 End Plane.
